@@ -41,8 +41,6 @@ PROP = dict(
         "purely syntactic checks on them (sdk.ValidateDenom, bech32/hex address syntax, ParseLptDenom) are recorded flags",
         "store iteration order is not modelled: pools, token pairs and CSRs are compared as sets",
         "fewer than 2^64-1 pools (no uint64 wrap-around of the pool sequence)",
-        "the inflation provision computation does not overflow LegacyDec on the stored parameters (calc_guard); "
-        "without it InitGenesis panics - import_without_guard_refuted, confirmed on the real code by the stream guard-overflow-params (known finding)",
         "genesis block time is not the zero time (then no stored epoch StartTime is the zero-time sentinel)",
     ],
 )
